@@ -96,3 +96,191 @@ def http_layer(events, ep, base_of):
                     "n": e["n"], "fault": nz(e.get("fault")),
                 })
     return out
+
+
+# ----------------------------------------------------------------------------- flow layer
+import base64, hashlib, ipaddress, json as _json
+
+SUBJECT_SHORT = {"country_name": "C", "generation_qualifier": "generationQualifier", "given_name": "GN", "initials": "initials",
+                 "locality_name": "L", "name": "name", "organization_name": "O", "organizational_unit_name": "OU",
+                 "pkcs9_email_address": "emailAddress", "postal_address": "postalAddress", "postal_code": "postalCode",
+                 "state_or_province_name": "ST", "street": "street", "surname": "SN", "title": "title"}
+KEYTYPE_DISPLAY = {"rsa2048": "rsa2048", "rsa4096": "rsa4096", "ecdsa_p256": "ecdsa-p256", "ecdsa_p384": "ecdsa-p384",
+                   "ecdsa_p521": "ecdsa-p521", "ed25519": "ed25519", "ed448": "ed448"}
+
+
+def cert_id(c):
+    name = c.get("name")
+    if name is None:
+        i0 = c["identifiers"][0]
+        name = i0.get("dns") or i0.get("ip")
+    for ch in "*:/":
+        name = name.replace(ch, "_")
+    kt = (c.get("key_type") or "rsa2048").lower().replace("-", "_")
+    return "%s_%s" % (name, KEYTYPE_DISPLAY[kt])
+
+
+def flow_info(c):
+    """What the flow specification needs to know about a [[certificate]] table. `canon` fields (the canonical form the
+    generator started from) are used when present; otherwise the configured text is taken as already canonical."""
+    ids = []
+    for i in c["identifiers"]:
+        if "dns" in i:
+            ids.append({"id": "dns:" + i.get("canon", i["dns"]), "chal": i["challenge"]})
+        else:
+            ids.append({"id": "ip:" + i.get("canon", i["ip"]), "chal": i["challenge"]})
+    kt = (c.get("key_type") or "rsa2048").lower().replace("-", "_")
+    digest = (c.get("csr_digest") or "sha256").lower().replace("-", "").replace("_", "")
+    if kt in ("ed25519", "ed448"):
+        digest = "none"
+    subj = sorted("%s=%s" % (SUBJECT_SHORT[k], v) for k, v in (c.get("subject_attributes") or {}).items())
+    return {"ids": ids, "kp_reuse": bool(c.get("kp_reuse", False)), "subject": subj, "digest": digest, "key_type": kt}
+
+
+def strip_canon(c):
+    """The [[certificate]] table as it goes into the TOML file (harness-only keys removed)."""
+    c = dict(c)
+    c["identifiers"] = [{k: v for k, v in i.items() if k != "canon"} for i in c["identifiers"]]
+    return c
+
+
+def _b64u(b):
+    return base64.urlsafe_b64encode(b).rstrip(b"=").decode()
+
+
+def key_facts(vc, stat):
+    if not stat or not stat.get("exists"):
+        return {"exists": False, "ok": False, "spki": "none", "sha": "none"}
+    r = vc.call("key_parse", pem=stat.get("content", ""))
+    ok = bool(r.get("ok_call")) and r.get("nb_blocks") == 1 and r.get("trailing_len") == 0
+    return {"exists": True, "ok": ok, "spki": r.get("spki_sha", "none") if r.get("ok_call") else "none", "sha": stat["sha"]}
+
+
+def cert_facts(vc, stat):
+    if not stat or not stat.get("exists"):
+        return {"exists": False, "ok": False, "leaf": "none", "sha": "none"}
+    r = vc.call("cert_parse", pem=stat.get("content", ""))
+    if not r.get("ok_call"):
+        return {"exists": True, "ok": False, "leaf": "none", "sha": stat["sha"]}
+    ok = r.get("residue_len", 0) == 0 and r["count"] >= 1 and stat.get("content", "").count("-----BEGIN CERTIFICATE-----") == r["count"]
+    return {"exists": True, "ok": ok, "leaf": r["certs"][0]["spki_sha"], "sha": stat["sha"]}
+
+
+def file_facts_from_disk(vc, path, kind):
+    import os
+    if not os.path.isfile(path):
+        return key_facts(vc, None) if kind == "key" else cert_facts(vc, None)
+    data = open(path, "rb").read()
+    st = {"exists": True, "sha": hashlib.sha256(data).hexdigest(), "content": data.decode("utf-8", "replace")}
+    return key_facts(vc, st) if kind == "key" else cert_facts(vc, st)
+
+
+def expected_proofs(ident, challenges):
+    exp = {"http_file": "none", "http_proof": "none", "dns_proof": "none", "tls_proof": "none", "tls_raw": "none", "tls_name": "none"}
+    for c in challenges:
+        e = c.get("expect")
+        if not e:
+            continue
+        if c["type"] == "http-01":
+            exp["http_file"], exp["http_proof"] = c["token"], e["keyauth"]
+        elif c["type"] == "dns-01":
+            exp["dns_proof"] = e["dns"]
+        elif c["type"] == "tls-alpn-01":
+            hx = e["tlsalpn_hex"]
+            exp["tls_proof"] = "1.3.6.1.5.5.7.1.31=critical,DER:04:20:" + ":".join(hx[i:i + 2] for i in range(0, len(hx), 2))
+            exp["tls_raw"] = e["tlsalpn_b64"]
+            if ident["type"] == "ip":
+                exp["tls_name"] = ipaddress.ip_address(ident["value"]).reverse_pointer
+            else:
+                exp["tls_name"] = ident["value"]
+    return exp
+
+
+def digest_of_sigalg(s):
+    u = (s or "").upper()
+    for d in ("SHA256", "SHA384", "SHA512", "SHA1", "SHA224"):
+        if d in u:
+            return d.lower()
+    return "none"
+
+
+def flow_layer(events, cid, info, vc, hook_types):
+    """events of one scenario -> AcmeFlow-layer events of certificate `cid`.
+    hook_types: hook name -> ("chal"|"clean"|"postop"|other, challenge type)."""
+    out = []
+    last_post_cert = {}
+    for e in events:
+        src, ev = e.get("src"), e.get("ev")
+        if src == "drv":
+            if ev == "DaemonEnd":
+                out.append({"e": "DaemonEnd", "clean": e.get("rc") == 0 and not e.get("hung")})
+            elif ev == "Disk" and e.get("cert") == cid:
+                out.append({"e": "Disk", "key": e["key"], "cert": e["crt"]})
+            continue
+        if src == "acmed":
+            if ev in ("HttpPost", "HttpGet"):
+                last_post_cert[e.get("ep")] = e.get("cert")
+            if ev == "Sleep" and (e.get("cert") == cid or e.get("blocking")):
+                out.append({"e": "Sleep", "ms": min(int(e["ms"]), 100000)})
+            if e.get("cert") != cid:
+                continue
+            ms = int(e.get("mono_ns", 0) // 1000000)
+            if ev == "AttemptStart":
+                out.append({"e": "AttemptStart", "real": ms})
+            elif ev == "AttemptEnd":
+                out.append({"e": "AttemptEnd", "ok": bool(e["is_success"]), "real": ms})
+            elif ev == "ReqEnd":
+                out.append({"e": "ReqEnd", "ok": bool(e["is_success"]), "status": e.get("status") or ""})
+            elif ev == "KeyPair":
+                out.append({"e": "KeyPair", "how": e["how"]})
+            elif ev == "FileWrite" and e.get("ftype") in ("pk", "crt"):
+                out.append({"e": "FileWrite", "ftype": e["ftype"], "sha": e["sha"]})
+            continue
+        if src == "ca" and ev == "CaReq" and e.get("method") == "POST" and e.get("delivered"):
+            if last_post_cert.get(e.get("ep")) != cid:
+                continue
+            d = e.get("detail") or {}
+            st = (e.get("resp") or {}).get("status")
+            kind = e["kind"]
+            fault = e.get("fault")
+            if kind == "newOrder" and "identifiers" in d and isinstance(d.get("identifiers"), list):
+                ids = []
+                for x in d["identifiers"]:
+                    ids.append("%s:%s" % (x.get("type"), x.get("value")) if isinstance(x, dict) else "bad")
+                out.append({"e": "NewOrder", "ids": ids})
+            elif kind == "authz" and st == 200 and "authz" in d and (fault is None or fault.startswith("obj:") or fault in ("ok:no_nonce",)):
+                orig = "%s:%s" % (d["ident"]["type"], d["orig"])
+                out.append({"e": "Authz", "id": d["authz"], "orig": orig, "status": d["status"],
+                            "offered": [c["type"] for c in d["challenges"]], "exp": expected_proofs(d["ident"], d["challenges"])})
+            elif kind == "challenge" and "chall" in d and d.get("payload") is not None:
+                out.append({"e": "ChalPost", "authz": d["authz"], "chal": d["type"]})
+            elif kind == "finalize" and "csr" in d:
+                c = d["csr"]
+                if c.get("ok_call"):
+                    names = ["dns:" + x for x in c["dns"]] + ["ip:" + x for x in c["ips"]]
+                    csr = {"spki": c["spki_sha"], "names": names, "subject": sorted("%s=%s" % (a, b) for a, b in c["subject"]),
+                           "digest": digest_of_sigalg(c["sig_alg"]), "verify_ok": bool(c["verify_ok"]) and c["other_san"] == 0}
+                else:
+                    csr = {"spki": "none", "names": [], "subject": [], "digest": "none", "verify_ok": False}
+                out.append({"e": "Finalize", "csr": csr, "issued": d.get("cert_sha") or "none"})
+            elif kind == "cert" and st == 200 and "sha" in d:
+                out.append({"e": "CertServed", "sha": d["sha"], "genuine": bool(d["genuine"])})
+            continue
+        if src == "hook" and ev == "HookRun" and e.get("phase") == "end":
+            if (e.get("env") or {}).get("VT_CERT") != cid:
+                continue
+            role, chal, allowed = (list(hook_types.get(e["hook"], ("other", None, False))) + [False])[:3]
+            kv = e.get("kv") or {}
+            if role in ("chal", "clean"):
+                out.append({"e": "ChalHook", "clean": role == "clean", "chal": kv.get("challenge", "none"), "htype": chal,
+                            "identifier": kv.get("identifier", "none"), "file_name": nz(kv.get("file_name")),
+                            "proof": nz(kv.get("proof")), "raw_proof": nz(kv.get("raw_proof")),
+                            "tls_name": nz(kv.get("identifier_tls_alpn")) if chal == "tls-alpn-01" else "none",
+                            "is_clean_hook": kv.get("is_clean_hook", "none"), "ok": e.get("exit") == 0 or bool(allowed)})
+            elif role == "postop":
+                files = {f["path"]: f for f in e.get("files") or []}
+                kf = files.get(kv.get("private_key_path"))
+                cf = files.get(kv.get("certificate_path"))
+                out.append({"e": "PostOp", "is_success": kv.get("is_success") == "true", "status": kv.get("status", ""),
+                            "key": key_facts(vc, kf), "cert": cert_facts(vc, cf), "exit": e.get("exit", 0)})
+    return out
